@@ -38,7 +38,7 @@ func init() {
 		ID: "C14",
 		Explanation: "Decided: (R1) which blocking primitives are synchronously reachable from Tell (effect analysis over the call graph): the remoting send path's dial, handshake, retry sleep, writes and wait are a KNOWN FINDING (Tell blocks while the peer is unreachable, contrary to the documented contract); any other blocking primitive is a violation; " +
 			"(R2) every failing exit of the send loop is reported (C03.R6) and an encode failure aborts the loop with the error; (R3) once a non-zero frame length was read the reader never re-arms without consuming exactly that many bytes — paths that do not consume kill the connection actor; (R4) the retry limit is clamped to >= 0, the retry loop exits on it, nothing reachable from a retry iteration writes the attempt counter, a stopped system aborts; " +
-			"(R5) a failed write / closed connection clears the cached connection before the retry, and non-EOF read errors kill the connection actor without re-arming; (R6) an undecodable frame re-arms the reader; (R7) because the clean-EOF exit leaves the old connection actor registered, the name under which a connection actor is spawned contains a per-socket component, so a re-dial to the same peer does not collide with it. (R8) the retry helper object, which carries the attempt counter and is reset whenever a send returns, is created fresh for every mailbox (the value stored into the mailbox's field is an allocation or a constructor result): the per-peer lock then protects it, and traffic to a healthy peer cannot reset the count of an unreachable one. (R4, addition) every return of the retry helper leaves the attempt counter reset (deferred reset registered on every path, or a reset on every path from an advance to a return); (R9 = C11.R3) the frame reader re-arms or terminates its connection on every path; (R10) the value handed to the connection's Write is the frame encoder's result on every attempt, never a re-slice or remainder. (R11) no error of the transport package is dropped implicitly (bare call statements over the syntax tree). (R12) sibling agreement: Handshake.Send and Handshake.Wait arm and clear the same number of deadlines, so the two directions of a connection are left in the same state. (R13) a connection that lost its reading side while the socket stays open (close handshake of a peer system restarted in-process, invalid frame length, supervision) makes a later write fail: the write deadline armed before the handshake write is never disarmed in the transport (or every data write arms its own), or the reader's death closes the socket (reader exits / the connection actor's termination handler) — otherwise later messages are neither delivered nor dead-lettered and no reconnect happens. (R14 = C12.R9) pooled codec objects start clean: the sticky error of a frame that failed to decode is not inherited by later frames. NOT decided: 'what it receives is a subsequence' under arbitrary cut points, duplicates after an ambiguous write error, recovery timing.",
+			"(R5) a failed write / closed connection clears the cached connection before the retry, and non-EOF read errors kill the connection actor without re-arming; (R6) an undecodable frame re-arms the reader; (R7) because the clean-EOF exit leaves the old connection actor registered, the name under which a connection actor is spawned contains a per-socket component, so a re-dial to the same peer does not collide with it. (R8) the retry helper object, which carries the attempt counter and is reset whenever a send returns, is created fresh for every mailbox (the value stored into the mailbox's field is an allocation or a constructor result): the per-peer lock then protects it, and traffic to a healthy peer cannot reset the count of an unreachable one. (R4, addition) every return of the retry helper leaves the attempt counter reset (deferred reset registered on every path, or a reset on every path from an advance to a return); (R9 = C11.R3) the frame reader re-arms or terminates its connection on every path; (R10) the value handed to the connection's Write is the frame encoder's result on every attempt, never a re-slice or remainder. (R11) no error of the transport package is dropped implicitly (bare call statements over the syntax tree). (R12) sibling agreement: Handshake.Send and Handshake.Wait arm and clear the same number of deadlines, so the two directions of a connection are left in the same state. (R13) a connection that lost its reading side while the socket stays open (close handshake of a peer system restarted in-process, invalid frame length, supervision) makes a later write fail: the write deadline armed before the handshake write is never disarmed in the transport (or every data write arms its own), or the reader's death closes the socket (reader exits / the connection actor's termination handler) — otherwise later messages are neither delivered nor dead-lettered and no reconnect happens. (R14 = C12.R9) pooled codec objects start clean: the sticky error of a frame that failed to decode is not inherited by later frames. (R15 = C11.R1/R2) frames are read with exact-length reads straight from the connection — no buffering reader whose read-ahead a restart of the connection actor would discard. NOT decided: 'what it receives is a subsequence' under arbitrary cut points, duplicates after an ambiguous write error, recovery timing.",
 		Rules: []Rule{
 			{ID: "C14.R1", Min: 4, Desc: "Tell effect analysis (blocking primitives)", Fn: c14TellBlocks},
 			{ID: "C14.R2", Min: 3, Desc: "failure reported; encode failure aborts", Fn: c14Reported},
@@ -57,13 +57,14 @@ func init() {
 			{ID: "C14.R12", Min: 1, Desc: "the two halves of the handshake treat their deadlines alike (sibling agreement)", Fn: c14HandshakeDeadlines},
 			{ID: "C14.R13", Min: 1, Desc: "a connection that lost its reader makes a later write fail (armed write deadline, or the reader's death closes the socket)", Fn: c14HalfDeadNoticed},
 			{ID: "C14.R14", Min: 5, Desc: "pooled codec objects start clean: a frame that failed to decode does not poison the decoding of later frames (C12.R9)", Fn: c12Pools},
+			{ID: "C14.R15", Min: 4, Desc: "framing agreement and exact-length reads straight from the connection (C11.R1/R2): nothing read ahead can be lost when the connection actor restarts", Fn: func(p *Program, r *Report) { c11Framing(p, r); c11ReadAhead(p, r) }},
 			{ID: "C14.R8", Min: 1, Desc: "retry state is per mailbox, never shared between peers", Fn: c14OwnBackoff},
 		},
 	})
 	register(&Property{
 		ID: "C15",
 		Explanation: "Decided: (R1) no registered reader/writer passes a value to the codec that it cannot represent (interface-typed refs, named basic types, unexported-only structs ...); (R2) every message type told by an actor-context operation is registered for the wire, or is told only to references taken from the local parent/child/target tables or to the actor itself; " +
-			"(R3) the mailbox lookup reaches the remoting mailbox for every non-local address whenever remoting is enabled and the system is not stopped; (R4) sender/receiver roles are preserved end to end so that Reply reaches the original sender (C11.R5); (R5) a nested message that the library itself may leave nil (the Message of a failure PipeResult) is guarded by a non-nil test in its writer, because a nil message can only take the user-codec path and fails without a codec (F30, fixed); (R6) the key under which Watch/Unwatch store a watcher depends on the watcher's address; R1 also rejects length prefixes narrower than 4 bytes for unbounded strings (long actor paths). (R8) a registered reader assigns an error-typed field of its message under an (in)equality test of the decoded code, never an ordering test (codes are signed, the catch-all code is negative); (R9 = C14.R4) a remote operation whose first attempt fails is retried within the full budget. (R10 = C12.R10) no error of the codec layer is dropped implicitly. (R11 = C12.R11) every hand-over of a message to the user's Codec, on the writing and on the reading side, of envelopes and of nested messages, is dominated by the same outcome of the same registry-membership test of the message's descriptor: with a Codec configured a registered type still travels in its registered format. (R12 = C14.R13) a connection whose reading side has died while the socket stays open makes a later write fail (armed write deadline never disarmed, or the reader's death closes the socket): otherwise every remote operation on a connection older than the handshake deadline is written into the void. NOT decided: the observable effect at the remote actor.",
+			"(R3) the mailbox lookup reaches the remoting mailbox for every non-local address whenever remoting is enabled and the system is not stopped; (R4) sender/receiver roles are preserved end to end so that Reply reaches the original sender (C11.R5); (R5) a nested message that the library itself may leave nil (the Message of a failure PipeResult) is guarded by a non-nil test in its writer, because a nil message can only take the user-codec path and fails without a codec (F30, fixed); (R6) the key under which Watch/Unwatch store a watcher depends on the watcher's address; R1 also rejects length prefixes narrower than 4 bytes for unbounded strings (long actor paths). (R8) a registered reader assigns an error-typed field of its message under an (in)equality test of the decoded code, never an ordering test (codes are signed, the catch-all code is negative); (R9 = C14.R4) a remote operation whose first attempt fails is retried within the full budget. (R10 = C12.R10) no error of the codec layer is dropped implicitly. (R11 = C12.R11) every hand-over of a message to the user's Codec, on the writing and on the reading side, of envelopes and of nested messages, is dominated by the same outcome of the same registry-membership test of the message's descriptor: with a Codec configured a registered type still travels in its registered format. (R12 = C14.R13) a connection whose reading side has died while the socket stays open makes a later write fail (armed write deadline never disarmed, or the reader's death closes the socket): otherwise every remote operation on a connection older than the handshake deadline is written into the void. (R13 = C12.R13) a registered reader never replaces decoded content by local content (an error reply keeps the detail attached with With / WithMessage across systems). (R14 = C14.R6) an undecodable frame re-arms the reader. NOT decided: the observable effect at the remote actor.",
 		Rules: []Rule{
 			{ID: "C15.R7", Min: 5, Desc: "pooled codec objects start clean: an encode failure of one message cannot poison the next remote operation (C12.R9)", Fn: c12Pools},
 			{ID: "C15.R6", Min: 4, Desc: "watcher identity includes the address", Fn: c15WatcherIdentity},
@@ -75,6 +76,8 @@ func init() {
 			}},
 			{ID: "C15.R11", Min: 2, Desc: "writer and reader choose between the registered format and the user Codec by the same registry-membership test", Fn: codecChoice},
 			{ID: "C15.R12", Min: 1, Desc: "remote operations on an aged connection: a connection that lost its reader makes a later write fail (C14.R13)", Fn: c14HalfDeadNoticed},
+			{ID: "C15.R13", Min: 5, Desc: "a registered reader never overwrites what it has decoded (C12.R13): a remote reply carries the same content as a local one", Fn: c12DecodedKept},
+			{ID: "C15.R14", Min: 1, Desc: "an undecodable frame does not end the reading of the connection: later remote operations from that peer still arrive (C14.R6)", Fn: c14DecodeContinues},
 			{ID: "C15.R8", Min: 1, Desc: "an error carried by a message is reconstructed for every code other than the writer's no-error value", Fn: c15ErrorSentinel},
 			{ID: "C15.R5", Min: 2, Desc: "optional nested payloads are encodable without a codec", Fn: c15OptionalPayload},
 			{ID: "C15.R1", Min: 28, Desc: "wire-representable fields", Fn: c15Representable},
